@@ -405,7 +405,7 @@ private theorem aggOne_inv (c : Crypto) (s : Node) (p : Partial) (h : Inv c k ch
         · exact inv_of_fields h rfl rfl rfl rfl rfl rfl
         · rfl
         · rfl
-      split <;> (split <;> first | exact inv_of_fields this rfl rfl rfl rfl rfl rfl | exact this)
+      split <;> first | exact inv_of_fields this rfl rfl rfl rfl rfl rfl | exact this
   all_goals exact inv_of_fields h rfl rfl rfl rfl rfl rfl
 
 private theorem tryNode_inv (c : Crypto) (upTo : Nat) (pkts : List SyncPkt) :
